@@ -455,6 +455,38 @@ def _multi_col_cases(draw):
             "kind": draw(st.sampled_from(["dataframe", "ndarray", "lists"])), "grid_size": draw(st.sampled_from([10, 1000]))}
 
 
+def check_metricframe_huge_series(case):
+    """A million rows, y_true and y_pred as Series whose index labels differ (one shuffled, one offset): rows are still
+    paired by position with each other and with the sensitive feature array."""
+    import fairlearn.metrics as fm
+    from fairlearn.metrics import MetricFrame
+
+    rs = np.random.RandomState(case["seed"])
+    n, G = case["n"], case["groups"]
+    g = rs.randint(0, G, size=n)
+    yt = rs.randint(0, 2, size=n)
+    flip = rs.rand(n) < (0.1 + 0.25 * g / max(G - 1, 1))  # accuracy differs between groups
+    yp = np.where(flip, 1 - yt, yt)
+    idx_t = rs.permutation(n) if case["plans"][0] == "shuffled" else np.arange(n) + 7
+    idx_p = np.arange(n) if case["plans"][1] == "default" else rs.permutation(n)
+    mf = MetricFrame(metrics={"acc": M.m_wmean, "sel": fm.selection_rate}, y_true=pd.Series(yt, index=idx_t), y_pred=pd.Series(yp, index=idx_p),
+                     sensitive_features=g if case["sf_kind"] == "ndarray" else pd.Series(g, index=rs.permutation(n)))
+    for k in range(G):
+        m = g == k
+        e_acc, e_sel = float((yt[m] == yp[m]).mean()), float((yp[m] == 1).mean())
+        got = mf.by_group.loc[k]
+        if abs(float(got["acc"]) - e_acc) > 1e-12 or abs(float(got["sel"]) - e_sel) > 1e-12:
+            raise PropertyViolation(f"n={n}: by_group[{k}] = {got.to_dict()}, from the rows paired by position: acc {e_acc!r}, sel {e_sel!r}")
+    return ["nt"]
+
+
+@st.composite
+def _huge_series_cases(draw):
+    return {"n": draw(st.sampled_from([1000000, 1000003, 1048576])), "groups": draw(st.integers(2, 3)), "seed": draw(st.integers(0, 2**31 - 1)),
+            "plans": [draw(st.sampled_from(["shuffled", "offset"])), draw(st.sampled_from(["default", "shuffled"]))],
+            "sf_kind": draw(st.sampled_from(["ndarray", "series"]))}
+
+
 # ---- estimators -------------------------------------------------------------------------------------------------
 
 
@@ -748,6 +780,7 @@ SUBS = [
         floors={"nt": 0.188, "y_dataframe": 0.03}),
     Sub("reductions", check_reduction, strategy=_red_cases, quick=60, thorough=2000, shards=16, shrink_quick=False,
         floors={"nt": 0.1}),
+    Sub("metricframe_huge_series", check_metricframe_huge_series, strategy=_huge_series_cases, quick=3, thorough=16, shards=3, shrink_quick=False),
     Sub("multi_column_renaming", check_multi_column_renaming, strategy=_multi_col_cases, quick=160, thorough=4000, shards=16,
         floors={"nt": 0.447, "long_cells": 0.262}),
 ]
